@@ -38,7 +38,7 @@ def rows_spec(c, rng):
     n = c.input_size
     if n <= EXH_MAX_INPUTS:
         return {'sampled': False}
-    k = SAMPLED_ROWS
+    k = 4 * SAMPLED_ROWS if n <= 24 else SAMPLED_ROWS   # moderately wide: more sampled operand values
     cols = {}
     dens = {r: rng.choice([0.5, 0.5, 0.9, 0.1, 0.97]) for r in range(1, k + 1)}   # sparse, uniform and dense operand values
     for l in c.inputs:
